@@ -258,10 +258,9 @@ def handleCorr (toks : List String) : Option String := do
     let m := roundMargin (o0.qn n)
     if m < margin then margin := m
   let tcol := (List.range T).map fun t => showF (Float.ofInt (ts t - ts 0) * dt)
-  let Tf := Float.ofNat T
   let spectra := (groupReps nq key).map fun n =>
     let avg (f : DecOut → Nat → Float) : Float :=
-      (sumRange T fun t => match fr t with | some o => groupMean nq key (f o) n | none => 0.0) / Tf
+      frameMean T fun t => match fr t with | some o => groupMean nq key (f o) n | none => 0.0
     " ".intercalate [showF (o0.qn n), showF (avg (·.S)), showF (avg (·.ST)), showF (avg (·.SL))]
   let block (sel : DecOut → Nat → Nat → Cx) : List String :=
     (List.range nq).map fun n =>
